@@ -22,8 +22,9 @@ from .. import leanio
 from . import stoch_common as SC
 
 PROP = "C04"
-LEAN = {"module": "Pygom.Props.C04",
-        "required": ["Pygom.C04.path_start", "Pygom.C04.path_times_increasing", "Pygom.C04.adaptiveTau_pos",
+LEAN = {"module": "Pygom.Props.C04", "extra_modules": ["Pygom.Props.C04Seq"],
+        "required": ["Pygom.C04.runMany_all_start", "Pygom.C04.exact_ignores_tau_config", "Pygom.C04.exact_steps_one_event_any_tau_config",
+                     "Pygom.C04.path_start", "Pygom.C04.path_times_increasing", "Pygom.C04.adaptiveTau_pos",
                      "Pygom.C04.path_counts", "Pygom.C04.path_increment", "Pygom.C04.path_exit",
                      "Pygom.C04.path_exit_partial"]}
 BUDGET = {"quick": {"models": 120, "sessions": 110},
@@ -176,7 +177,7 @@ def run_case(case):
                 st = {"stop": None, "rejected_tau": 0, "retries_ok": 0}
             extra = ":leftover-tau-config" if (call.leftover and sim["pre_tau"] is not None) else ""
             SC.oracle_c04(model, call.case, X, J, T, exact, float(sim["T"]), jr["truncated"], its, lims, tr.evaluators, viol,
-                          sig_extra=extra, where="call at op %d, path %d, x0 handed over as %s" % (call.index, p, sim["x0_form"]))
+                          sig_extra=extra, where="call at op %d, path %d, x0 handed over as %s" % (call.index, p, sim["x0_form"]), dT=jr["dT"])
             state["accepted"] = max(state["accepted"], len(T) - 1)
             if jr["truncated"]: tags.append("truncated")
             if st["stop"]: tags.append("stop:" + st["stop"])
